@@ -13,6 +13,7 @@
                  provides-declarations and declared objects; only names in the payload; every
                  protocol 0..5 covered).  It never calls run / reduce / rebuild. *)
 From Coq Require Import List NArith ZArith Bool Arith.
+From Coq Require Export Strings.String.   (* generated case files spell names as "..."%string *)
 Import ListNotations.
 From ZI Require Export Lib.Str Lib.Util Model.Pickle.
 Local Open Scope nat_scope.
@@ -47,6 +48,9 @@ Record item_obs := mkItem {
 }.
 
 Definition case_t := (world * list op * list item_obs)%type.
+
+(* compact spelling of an ASCII global name in generated case files *)
+Definition gn (m n : string) : gname := (str_of_string m, str_of_string n).
 
 Definition fuel_of (w : world) : nat := List.length (w_ifaces w) + List.length (w_classes w) + 2.
 
